@@ -127,7 +127,17 @@ impl XmlWorld {
                     XPipeline::Tok { policy: if rng.chance(1, 2) { 0 } else { rng.next_u64() | 1 } }
                 }
             },
-            XProp::C05 | XProp::C18 => XPipeline::Tree,
+            XProp::C05 | XProp::C18 => {
+                if self.prop == XProp::C18 && rng.chance(2, 3) {
+                    for _ in 0..rng.range(1, 3) {
+                        let n = input.chars().count();
+                        let at = rng.below(n + 1);
+                        let byte = input.char_indices().nth(at).map(|(b, _)| b).unwrap_or(input.len());
+                        input.insert_str(byte, rng.pick_str(&["<script/>", "<script>s</script>", "</script>"]));
+                    }
+                }
+                XPipeline::Tree
+            },
         };
         let mut schedule = gen_schedule(rng, &input, self.knobs());
         for p in schedule.pauses.iter_mut() {
